@@ -353,14 +353,13 @@ def oracle(rep, ms):
     if _has_nul(op):
         # FS.validatepath: a path with an invalid character is refused, whatever it normalises to and whichever
         # filesystem it would be routed to (MountFS._delegate looks at the raw path first since /repo 48e26ed; before,
-        # `exists('m1/z\0/../f')` was True: the fixed finding C01/mountfs-nul-normalised-away).  Class-only exceptions
-        # of fs/base.py and fs/mountfs.py that look at another argument first: `openbin` validates its mode
-        # (ValueError), `FS.removetree` normalises its path (IllegalBackReference for a path that also climbs).
+        # `exists('m1/z\0/../f')` was True: the fixed finding C01/mountfs-nul-normalised-away).  Class-only exception
+        # of fs/mountfs.py that looks at another argument first: `openbin` validates its mode (ValueError).  (The
+        # inherited `FS.removetree` used to normalise its path first — IllegalBackReference for a path that also
+        # climbs, and `removetree('m1/z\0/..')` emptied `m1` —; since /repo 433aea4 it validates like every method.)
         ok_cls = {"InvalidCharsInPath"}
         if op[0] == "openbin":
             ok_cls.add("ValueError")
-        if op[0] == "removetree":
-            ok_cls.add("IllegalBackReference")
         if ms.impl[0] != "err" or ms.impl[1] not in ok_cls or changed:
             rep.violation(_case(ms), "MountFS (%s).%s%r with a NUL in the path -> %r (members changed: %r); every filesystem "
                           "refuses such a path with InvalidCharsInPath and changes nothing"
